@@ -84,6 +84,26 @@ theorem c15_generator_set_works_both_ways (ca : Nat) (noExpiry : Bool) (now : In
     simp [presented, validAt, genCa, genEntity, validity, hca, hen, hsig, hsym, hskip, hse, hce,
       chainsTo, nameOf, hsan, hname, rcgenNotBefore, rcgenNotAfter, hA1, hA2, hB, hC]
 
+/-- … and also when the clocks of the generating machine and of the peers are not in step: a set generated at moment `g`
+    (without `--no-expiry`) is accepted by peers whose clock reads `p`, for every `p` at most the configured number of days
+    before or after `g` — the generator back-dates the start of validity by as much as it post-dates the end
+    (`genValiditySymmetric`), so a peer that is minutes, hours or days behind does not find the certificates "not yet valid". -/
+theorem c15_generator_set_tolerates_clock_skew (ca : Nat) (g p : Int)
+    (h1 : 315532800 ≤ g) (h2 : g ≤ 64060588800)
+    (hp1 : g - (span genCaValidityDays : Int) ≤ p) (hp2 : p ≤ g + (span genCaValidityDays : Int))
+    (hp3 : g - (span genEntityValidityDays : Int) ≤ p) (hp4 : p ≤ g + (span genEntityValidityDays : Int)) :
+    handshake ca ca
+      (presented p genClientEku (genCa ca false g) (genEntity ca genClientEku false g))
+      (presented p genServerEku (genCa ca false g) (genEntity ca genServerEku false g)) = true := by
+  obtain ⟨hsan, hse, hce, hca, hen, hsig, hsym, hskip, hcs, hes⟩ := generator_facts
+  have hname : serverName = "localhost" := config_is_mutual.2.2.2.2
+  rw [c15_policy]
+  have hC : (span genCaValidityDays : Int) ≤ g ∧ (span genEntityValidityDays : Int) ≤ g := by omega
+  have hA1 : (0 ≤ g - (span genCaValidityDays : Int) ∧ g - (span genCaValidityDays : Int) ≤ p) ∧ p ≤ g + (span genCaValidityDays : Int) := by omega
+  have hA2 : (0 ≤ g - (span genEntityValidityDays : Int) ∧ g - (span genEntityValidityDays : Int) ≤ p) ∧ p ≤ g + (span genEntityValidityDays : Int) := by omega
+  simp [presented, validAt, genCa, genEntity, validity, hca, hen, hsig, hsym, hskip, hse, hce,
+    chainsTo, nameOf, hsan, hname, hA1, hA2, hC]
+
 /-- The defect this guards against, for the record: a validity of a hundred years either side of 2026 starts in 1926,
     before anything webpki can represent: such a certificate is unusable in both directions. -/
 theorem c15_start_before_1970_is_unusable :
@@ -106,3 +126,4 @@ end Selium.Tls
 #print axioms Selium.Tls.generator_facts
 #print axioms Selium.Tls.c15_generator_set_works_both_ways
 #print axioms Selium.Tls.c15_start_before_1970_is_unusable
+#print axioms Selium.Tls.c15_generator_set_tolerates_clock_skew
